@@ -4,6 +4,7 @@ import Driver.Tx
 import Driver.Kv
 import Driver.Db
 import Driver.Writer
+import Driver.Conc
 open Driver
 
 structure DState where
@@ -13,6 +14,7 @@ structure DState where
   kv : Fjall.Mvcc.Kv := {}
   db : Fjall.Db.DbL := {}
   wr : WrSession := {}
+  conc : ConcSession := {}
 
 def step (s : DState) (line : String) : DState × String :=
   let ws := words line
@@ -33,7 +35,10 @@ def step (s : DState) (line : String) : DState × String :=
           | none =>
             match wrCmd s.wr s.comp ws with
             | some (w, out) => ({ s with wr := w }, out)
-            | none => (s, "bad-op")
+            | none =>
+              match concCmd s.conc ws with
+              | some (c, out) => ({ s with conc := c }, out)
+              | none => (s, "bad-op")
 
 partial def loop (h : IO.FS.Stream) (out : IO.FS.Stream) (s : DState) : IO Unit := do
   let line ← h.getLine
